@@ -12,7 +12,7 @@ CHECK = {
         {"fn": P + "vC11_sameName", "replay": "model-only"},
         {"fn": P + "vC11_twoNames", "replay": "model-only"},
         {"fn": P + "vC11_spawnAndFunc", "replay": "model-only"},
-        {"fn": P + "vC11_winnerCancelled", "replay": "model-only"},
+        {"fn": P + "vC11_winnerCancelled", "replay": "model-only", "opts_quick": {"rounds": 2}},
     ],
     "opts": {"rounds": 3, "unwind": 3, "unwind_mode": "assume", "feasibility": False, "substitute": SUB, "go_inline": True},
     "stop": list(SUB.keys()),
